@@ -40,18 +40,18 @@ int main(int argc, char **argv) {
         if (a.opt.count("seq")) { std::stringstream ss(a.gets("seq", "1")); std::string tok; while (std::getline(ss, tok, ',')) ops.push_back(tok); }
         else {
             static const size_t ns[] = {1, 2, 3, 4, 8, 1, 2, 5, 6, 12, 16}; int len = (int) r.range(1, 4); int live = 0;
-            bool with_app = r.chance(0.5);
+            bool with_app = r.chance(0.5); bool with_threads = r.chance(0.4);
             for (int q = 0; q < len; q++) {
                 size_t want = ns[r.below(11)];
                 if (with_app && r.chance(0.5)) { size_t m = r.chance(0.5) ? want : ns[r.below(11)]; ops.push_back("A" + std::to_string(m)); live++; }
-                ops.push_back(std::to_string(want));
+                ops.push_back((with_threads && r.chance(0.5) ? "T" : "") + std::to_string(want));   // "T<n>": the call is made by a helper thread that has exited when it counts
                 while (live > 0 && r.chance(0.6)) { ops.push_back("P"); live--; }
             }
         }
         std::string seqs; for (auto &x : ops) seqs += (seqs.empty() ? "" : ",") + x;
         std::string cj = J().str("component", "set_global_tbb_concurrency").str("call_sequence", seqs).num("graph_n", n).num("graph_m", m).done();
         size_t max_before = 0; std::string obs_all; double first_val = -1;
-        bool bounded_seen = false, app_seen = false, app_equal_seen = false; int nsets = 0; std::vector<size_t> sets;
+        bool bounded_seen = false, app_seen = false, app_equal_seen = false, thread_seen = false; int nsets = 0; std::vector<size_t> sets;
 #ifndef VSHIM_ACTIVE
         std::vector<std::unique_ptr<tbb::global_control>> app; std::vector<size_t> appv;
 #else
@@ -82,8 +82,12 @@ int main(int argc, char **argv) {
 #endif
                 continue;
             }
-            want = (size_t) atoll(op.c_str()); have_want = true; nsets++; sets.push_back(want);
-            parmcb::set_global_tbb_concurrency(want);
+            bool from_thread = op[0] == 'T';
+            want = (size_t) atoll(op.c_str() + (from_thread ? 1 : 0)); have_want = true; nsets++; sets.push_back(want);
+            // "every sequence of calls": the caller need not be the main thread; a helper thread that sets the limit and exits
+            // (an initialisation routine run on a worker) leaves the limit in force for the library calls that follow
+            if (from_thread) { size_t wv = want; std::thread th([wv]() { parmcb::set_global_tbb_concurrency(wv); }); th.join(); thread_seen = true; }
+            else parmcb::set_global_tbb_concurrency(want);
             size_t active = tbb::global_control::active_value(tbb::global_control::max_allowed_parallelism);
             expect_ok("right after the call returned", appv.empty() ? "knob:active_value" : "knob:active_value_with_app_control");
             { std::lock_guard<std::mutex> l(g_mu); g_tids.clear(); }
@@ -108,7 +112,7 @@ int main(int argc, char **argv) {
 #endif
         std::vector<size_t> &seq = sets;
         co.hash = mix(std::hash<std::string>()(seqs), i); co.nontrivial = true;
-        co.tag("len=" + std::to_string(seq.size())); co.tag("first_n=" + std::to_string(seq[0])); if (bounded_seen) co.tag("thread_identity_bound_applied"); if (app_seen) co.tag("application_owned_controls"); if (app_equal_seen) co.tag("app_control_equals_requested_n");
+        co.tag("len=" + std::to_string(seq.size())); co.tag("first_n=" + std::to_string(seq[0])); if (bounded_seen) co.tag("thread_identity_bound_applied"); if (app_seen) co.tag("application_owned_controls"); if (thread_seen) co.tag("set_from_helper_thread"); if (app_equal_seen) co.tag("app_control_equals_requested_n");
         bool dec = false; for (size_t q = 1; q < seq.size(); q++) if (seq[q] < seq[q - 1]) dec = true; if (dec) co.tag("has_decrease"); if (seq.size() > 1 && !dec) co.tag("non_decreasing");
         co.sample = J().str("call_sequence", seqs).str("observed", obs_all).done();
         co.end();
